@@ -8,8 +8,8 @@ mkdir -p /tmp/mt/suite
 exec 9>/tmp/mt/suite/.lock; flock 9
 if [ ! -e $WT/.git ]; then git -C /repo worktree add -f --detach $WT HEAD >/dev/null 2>&1; fi
 for id in "$@"; do
-  git -C $WT checkout -q --detach "$(git -C /repo rev-parse HEAD)"; git -C $WT checkout -q -- .; git -C $WT clean -fdq -e target
-  if ! git -C $WT apply /verif/seeded/$id/patch.diff 2>/dev/null; then echo "$id PATCH-DOES-NOT-APPLY-TO-HEAD"; continue; fi
+  git -C $WT checkout -q -- .; git -C $WT clean -fdq -e target; git -C $WT checkout -q --detach "$(git -C /repo rev-parse HEAD)"
+  if ! git -C $WT apply /verif/seeded/$id/patch.diff 2>/dev/null && ! (cd $WT && patch -p1 -F3 -s --no-backup-if-mismatch < /verif/seeded/$id/patch.diff); then echo "$id PATCH-DOES-NOT-APPLY-TO-HEAD"; continue; fi
   R=$(cd $WT && cargo test --workspace --no-fail-fast --offline 2>&1 | grep -E "^test result|^error(\[|:)" | awk '/^test result/ {p+=$4; f+=$6} /^error/ {e+=1} END {print "passed",p,"failed",f,"build_errors",e+0}')
   echo "$id workspace-suite-with-change: $R"
   python3 - "$id" "$R" "$(git -C /repo rev-parse --short HEAD)" <<'PY'
